@@ -7,6 +7,7 @@ import (
 	"errors"
 	"fmt"
 	"hash/fnv"
+	"math"
 	"net/http"
 	"net/http/httptest"
 	"os"
@@ -632,8 +633,19 @@ func (st *runState) checkMatrix(r *reqRec, d map[string]any, add func(p, oracle,
 			add("C15", "wrong-shape", "matrix/vector element lacks values", fmt.Sprintf("req%d %s element=%v", r.ID, r.Path, o))
 			return
 		}
+		prevT := math.Inf(-1)
 		for _, v := range vals {
 			pair, _ := v.([]any)
+			if t, ok := pair0(pair); ok {
+				// the points of one series are one per evaluation instant: a timestamp that repeats or goes back
+				// was rendered with loss (or a point was emitted twice)
+				if t <= prevT {
+					add("C15", "timestamp-altered", "timestamps of one series are not strictly increasing: "+rq.Kind,
+						fmt.Sprintf("req%d %s (step=%s): series %s has timestamp %v after %v", r.ID, r.Path, rq.Step, k, t, prevT))
+					return
+				}
+				prevT = t
+			}
 			if len(pair) != 2 {
 				add("C15", "wrong-shape", "sample is not a [time, value] pair", fmt.Sprintf("req%d %s sample=%v", r.ID, r.Path, v))
 				return
@@ -664,6 +676,14 @@ func (st *runState) checkMatrix(r *reqRec, d map[string]any, add func(p, oracle,
 			}
 		}
 	}
+}
+
+func pair0(pair []any) (float64, bool) {
+	if len(pair) != 2 {
+		return 0, false
+	}
+	t, ok := pair[0].(float64)
+	return t, ok
 }
 
 func keysOfBool(m map[string]bool) []string {
